@@ -357,6 +357,7 @@ def run_property(prop, tier, seed):
             'trivially_discharged_by_simplifier': trivial,
             'dropped_statements': eng.dropped,
             'unattached_loop_invariants': R.unattached_loops,
+            'alpha_renamed_locals_mapped_back': repo.alpha_renamed,
             'frame': {'roots_checked_to_modify_only_what_their_contract_declares': len(eng.frame_report.get('checked', {})),
                       'frame_obligations_needing_the_solver': sum(eng.frame_report.get('checked', {}).values()),
                       'top_level_roots_without_frame_check': sorted(eng.frame_report.get('top_level_not_checked', []))},
